@@ -144,6 +144,8 @@ func runOneVariant(self, prop, repo, verif, tmp string, idx int, v variantSpec) 
 		pairs = append(pairs, abs+"="+tf)
 	}
 	cmd := exec.Command(self, "-prop", prop, "-tier", "quick", "-repo", repo, "-verif", verif, "-noevidence", "-overlay", strings.Join(pairs, ","))
+	// eight children run side by side: fewer threads and a lazier collector each (half the wall time on 16 cores)
+	cmd.Env = append(os.Environ(), "GOMAXPROCS=4", "GOGC=300")
 	out, _ := cmd.CombinedOutput()
 	code := cmd.ProcessState.ExitCode()
 	var fired []string
@@ -357,6 +359,8 @@ func runPatchVariant(self, prop, repo, verif, tmp string, idx int, pv patchVaria
 		os.WriteFile(filepath.Join(dir, rel), []byte("package "+pk+"\n"), 0o644)
 	}
 	cmd := exec.Command(self, "-prop", prop, "-tier", "quick", "-repo", repo, "-verif", verif, "-noevidence", "-overlay", strings.Join(pairs, ","))
+	// eight children run side by side: fewer threads and a lazier collector each (half the wall time on 16 cores)
+	cmd.Env = append(os.Environ(), "GOMAXPROCS=4", "GOGC=300")
 	out, _ := cmd.CombinedOutput()
 	code := cmd.ProcessState.ExitCode()
 	var fired []string
